@@ -128,6 +128,17 @@ func gen(r *verifsim.Rng, tier string) (any, hx.Sched) {
 	if len(enabled) == 0 {
 		enabled = kinds
 	}
+	// focused runs (one in twelve): a few kinds of ONE registry only, so that registrations and lookups of the same
+	// few names meet often (with ~45 kinds enabled two operations on one name of one registry are rare)
+	focusGlob := false
+	switch r.Intn(36) {
+	case 0:
+		enabled, focusGlob = []string{"regglobals", "global", "global", "global"}, true
+	case 1:
+		enabled = []string{"addfunc", "pfunc", "getfunc", "getfunc_bs", "sfuncexists", "allfuncs"}
+	case 2:
+		enabled = []string{"addclass", "pclass", "pclass_sf", "piface_sf", "addiface", "getclass", "getclass_ci", "getiface", "loadpkg", "regreflect", "newobj"}
+	}
 	for t := 0; t < nt; t++ {
 		n := 2 + r.Intn(maxOps-1)
 		var ops []Op
@@ -146,7 +157,7 @@ func gen(r *verifsim.Rng, tier string) (any, hx.Sched) {
 			if k == "regglobals" {
 				name = verifsim.Pick(r, []string{"8", "40", "40", "200"}) // how many variables the "file" has
 			}
-			if k == "global" && r.Intn(2) == 0 {
+			if k == "global" && (focusGlob || r.Intn(2) == 0) {
 				name = fmt.Sprintf("gv%d", r.Intn(6)) // one of the names such a file declares
 			}
 			ops = append(ops, Op{k, name})
